@@ -38,6 +38,7 @@ Palette(p) ==
     [] p = 3 -> <<TypeRec(5, TRUE, <<65>>), TypeRec(-1, FALSE, <<66>>), TypeRec(2, FALSE, <<66>>)>>   \* type 0 is DST
     [] p = 4 -> <<TypeRec(0, FALSE, <<65>>), TypeRec(2, TRUE, <<66>>), TypeRec(0, FALSE, <<65>>)>>    \* duplicate type
     [] p = 5 -> <<TypeRec(-3, FALSE, <<65>>), TypeRec(5, TRUE, <<66>>), TypeRec(2, FALSE, <<67>>)>>
+    [] p = 6 -> <<TypeRec(0, FALSE, <<65>>), TypeRec(2, TRUE, <<66>>), TypeRec(0, FALSE, <<67>>)>>    \* a designation-only change beside offset changes
 
 VARIABLES pal, bb, tr, done
 \* pal: palette; bb: 0 = no big-bang entry, k = big-bang entry introducing type k;
@@ -79,7 +80,10 @@ Cl(t) == WInt(Clamp(W(t)))
 
 \* C02: kind = number of instants displaying cs (brute force over a window that certainly contains them)
 Shows(z, cs) == {t \in (WinLo - 12)..(WinHi + 12) : Break(z, W(t)).cs = cs}
-C02 == done => LET z == Z IN WellFormed(z) => \A cs \in CivWin :
+\* the premise of C02/C03/C06/C10: offset changes farther apart than the sum of their sizes - in the reading that also
+\* constrains designation-only entries (WellFormed, what the exported zones use) or literally (WellFormedD, palette 6)
+Premise(z) == WellFormed(z) \/ WellFormedD(z)
+C02 == done => LET z == Z IN Premise(z) => \A cs \in CivWin :
          LET m == Make(z, cs)  P == Shows(z, cs) IN
          /\ m.kind \in {"UNIQUE", "SKIPPED", "REPEATED"}
          /\ (m.kind = "UNIQUE") = (Cardinality(P) = 1)
@@ -90,16 +94,16 @@ C02 == done => LET z == Z IN WellFormed(z) => \A cs \in CivWin :
          /\ m.kind = "SKIPPED" => (m.post \preceq m.trans /\ m.trans \preceq m.pre)
          /\ m.kind = "REPEATED" => (m.pre \preceq m.trans /\ m.trans \preceq m.post)
 \* C03
-C03 == done => LET z == Z IN WellFormed(z) => \A t \in Win :
+C03 == done => LET z == Z IN Premise(z) => \A t \in Win :
          (TMin \prec W(t) /\ W(t) \prec TMax) =>
            LET m == Make(z, Break(z, W(t)).cs) IN
            \/ m.kind = "UNIQUE" /\ m.pre = W(t)
            \/ m.kind = "REPEATED" /\ (m.pre = W(t) \/ m.post = W(t))
 \* C06: order preservation on adjacent civil seconds (hence on all pairs)
-C06 == done => LET z == Z IN WellFormed(z) => \A t \in (WinLo - 6)..(WinHi + 5) :
+C06 == done => LET z == Z IN Premise(z) => \A t \in (WinLo - 6)..(WinHi + 5) :
          Convert(z, CivOf(t)) \preceq Convert(z, CivOf(t + 1))
 \* C10: saturation - every answer lies inside the representable range
-C10 == done => LET z == Z IN WellFormed(z) => \A cs \in CivWin :
+C10 == done => LET z == Z IN Premise(z) => \A cs \in CivWin :
          LET m == Make(z, cs) IN
          /\ TMin \preceq m.pre /\ m.pre \preceq TMax /\ TMin \preceq m.post /\ m.post \preceq TMax
          /\ TMin \preceq m.trans /\ m.trans \preceq TMax
